@@ -330,6 +330,20 @@ func main() {
 		if o.Tier != "quick" {
 			nr = 1500
 		}
+		// every ORDERED pair of host spellings for one port, per protocol: which of two entries for
+		// the same port wins must not depend on chance draws (first wins; a wildcard and a specific
+		// host are compatible in either order)
+		forms := []string{"80", ":80", "127.0.0.1:80", "10.0.0.1:80", "[::1]:80", "0.0.0.0:80"}
+		for _, proto := range []string{"tcp", "udp"} {
+			for _, a := range forms {
+				for _, b := range forms {
+					runs = append(runs, RunInput{Defined: []string{"s1", "s2"}, Cfg: []Entry{
+						{Port: proto + "/" + a, Services: []string{"s1"}},
+						{Port: proto + "/" + b, Services: []string{"s2"}},
+					}})
+				}
+			}
+		}
 		for i := 0; i < nr; i++ {
 			runs = append(runs, genRun(r))
 		}
